@@ -213,8 +213,17 @@ var goTy = map[string]string{"uint8": "UInt8", "byte": "UInt8", "uint16": "UInt1
 	"int": "Int", "int64": "Int", "CodecType": "UInt8", "PlatformType": "UInt8", "PacketType": "UInt8"}
 
 type tx struct {
-	pk  *pkgInfo
-	ren map[string][2]string // go text -> (lean name, lean type)
+	pk    *pkgInfo
+	ren   map[string][2]string // go text -> (lean name, lean type)
+	intTy string               // Lean type standing for Go's int in this anchor: "Int", or "Nat" for lengths (non-negative, no overflow)
+}
+
+func (t *tx) goType(name string) (string, bool) {
+	g, ok := goTy[name]
+	if ok && g == "Int" && t.intTy != "" {
+		return t.intTy, true
+	}
+	return g, ok
 }
 
 func lit(v int64, ty string) string {
@@ -231,6 +240,10 @@ func conv(s, from, to string) (string, bool) {
 	switch {
 	case to == "Int" && width[from] != 0:
 		return "(Int.ofNat " + s + ".toNat)", true
+	case to == "Nat" && width[from] != 0:
+		return "(" + s + ".toNat)", true
+	case from == "Nat" && width[to] != 0:
+		return "(" + to + ".ofNat " + s + ")", true
 	case from == "Int" && width[to] != 0:
 		return "(" + to + ".ofInt " + s + ")", true
 	case width[from] != 0 && width[to] != 0:
@@ -252,6 +265,9 @@ func (t *tx) lean(e ast.Expr, want string) (string, string, bool) {
 			}
 			if ty == "" {
 				ty = "Int"
+				if t.intTy != "" {
+					ty = t.intTy
+				}
 			}
 			return lit(v, ty), ty, true
 		}
@@ -273,7 +289,7 @@ func (t *tx) lean(e ast.Expr, want string) (string, string, bool) {
 		if n, ok := t.ren[exprText(e)]; ok { // e.g. len(data)
 			return n[0], n[1], true
 		}
-		to, ok := goTy[fn]
+		to, ok := t.goType(fn)
 		if !ok {
 			return "", "", false
 		}
@@ -310,7 +326,7 @@ func (t *tx) lean(e ast.Expr, want string) (string, string, bool) {
 				return "", "", false
 			}
 			op := map[token.Token]string{token.SHL: "<<<", token.SHR: ">>>"}[x.Op]
-			if ty == "Int" {
+			if ty == "Int" || ty == "Nat" {
 				if x.Op == token.SHL {
 					return fmt.Sprintf("(%s * %d)", a, int64(1)<<uint(k)), ty, true
 				}
@@ -435,6 +451,7 @@ type anchor struct {
 	ren                map[string][2]string
 	fallback           string // hand-written body used when the anchor is lost
 	isIf               bool
+	intTy              string
 }
 
 func r(pairs ...string) map[string][2]string {
@@ -455,48 +472,49 @@ func ps(pairs ...string) [][2]string {
 func anchors() []anchor {
 	as := []anchor{
 		{"protocol", "Handshake", "Pack", "fb", 0, "hsPackB0", "UInt8", ps("version", "UInt8", "codec", "UInt8"),
-			r("h.Version", "version", "UInt8", "h.Codec", "codec", "UInt8"), "(version ||| (codec <<< (4 : UInt8)))", false},
+			r("h.Version", "version", "UInt8", "h.Codec", "codec", "UInt8"), "(version ||| (codec <<< (4 : UInt8)))", false, ""},
 		{"protocol", "Handshake", "Pack", "sb", 0, "hsPackB1", "UInt8", ps("platform", "UInt8", "reserve", "UInt8"),
-			r("h.Platform", "platform", "UInt8", "h.Reserve", "reserve", "UInt8"), "(platform ||| (reserve <<< (4 : UInt8)))", false},
-		{"protocol", "Handshake", "Unpack", "h.Version", 0, "hsVersion", "UInt8", ps("b0", "UInt8"), r("data[0]", "b0", "UInt8"), "((15 : UInt8) &&& b0)", false},
-		{"protocol", "Handshake", "Unpack", "h.Codec", 0, "hsCodec", "UInt8", ps("b0", "UInt8"), r("data[0]", "b0", "UInt8"), "(((240 : UInt8) &&& b0) >>> (4 : UInt8))", false},
-		{"protocol", "Handshake", "Unpack", "h.Platform", 0, "hsPlatform", "UInt8", ps("b1", "UInt8"), r("data[1]", "b1", "UInt8"), "((15 : UInt8) &&& b1)", false},
-		{"protocol", "Handshake", "Unpack", "h.Reserve", 0, "hsReserve", "UInt8", ps("b1", "UInt8"), r("data[1]", "b1", "UInt8"), "(((240 : UInt8) &&& b1) >>> (4 : UInt8))", false},
+			r("h.Platform", "platform", "UInt8", "h.Reserve", "reserve", "UInt8"), "(platform ||| (reserve <<< (4 : UInt8)))", false, ""},
+		{"protocol", "Handshake", "Unpack", "h.Version", 0, "hsVersion", "UInt8", ps("b0", "UInt8"), r("data[0]", "b0", "UInt8"), "((15 : UInt8) &&& b0)", false, ""},
+		{"protocol", "Handshake", "Unpack", "h.Codec", 0, "hsCodec", "UInt8", ps("b0", "UInt8"), r("data[0]", "b0", "UInt8"), "(((240 : UInt8) &&& b0) >>> (4 : UInt8))", false, ""},
+		{"protocol", "Handshake", "Unpack", "h.Platform", 0, "hsPlatform", "UInt8", ps("b1", "UInt8"), r("data[1]", "b1", "UInt8"), "((15 : UInt8) &&& b1)", false, ""},
+		{"protocol", "Handshake", "Unpack", "h.Reserve", 0, "hsReserve", "UInt8", ps("b1", "UInt8"), r("data[1]", "b1", "UInt8"), "(((240 : UInt8) &&& b1) >>> (4 : UInt8))", false, ""},
 		// metadata string length prefix
-		{"protocol", "", "marshalString", "first", 0, "mdLenFirst", "UInt8", ps("l", "Int"), r("l", "l", "Int"), "((UInt8.ofInt (l / 256)) ||| (128 : UInt8))", false},
-		{"protocol", "", "marshalString", "second", 0, "mdLenSecond", "UInt8", ps("l", "Int"), r("l", "l", "Int"), "(UInt8.ofInt (l % 256))", false},
-		{"protocol", "", "unmarshalStringLength", "bitSize", 1, "mdBitSize", "UInt8", ps("b0", "UInt8"), r("data[0]", "b0", "UInt8"), "(b0 &&& (128 : UInt8))", false},
-		{"protocol", "", "unmarshalStringLength", "l", 0, "mdLen7", "Int", ps("b0", "UInt8"), r("data[0]", "b0", "UInt8"), "(Int.ofNat (b0 &&& (~~~(128 : UInt8))).toNat)", false},
-		{"protocol", "", "unmarshalStringLength", "first", 0, "mdLen15First", "Int", ps("b0", "UInt8"), r("data[0]", "b0", "UInt8"), "(Int.ofNat (b0 &&& (~~~(128 : UInt8))).toNat)", false},
-		{"protocol", "", "unmarshalStringLength", "l", 1, "mdLen15", "Int", ps("first", "Int", "second", "Int"), r("first", "first", "Int", "second", "second", "Int"), "((first * 256) + second)", false},
+		{"protocol", "", "marshalString", "first", 0, "mdLenFirst", "UInt8", ps("l", "Nat"), r("l", "l", "Nat"), "((UInt8.ofNat (l / 256)) ||| (128 : UInt8))", false, "Nat"},
+		{"protocol", "", "marshalString", "second", 0, "mdLenSecond", "UInt8", ps("l", "Nat"), r("l", "l", "Nat"), "(UInt8.ofNat (l % 256))", false, "Nat"},
+		{"protocol", "", "unmarshalStringLength", "bitSize", 1, "mdBitSize", "UInt8", ps("b0", "UInt8"), r("data[0]", "b0", "UInt8"), "(b0 &&& (128 : UInt8))", false, "Nat"},
+		{"protocol", "", "unmarshalStringLength", "l", 0, "mdLen7", "Nat", ps("b0", "UInt8"), r("data[0]", "b0", "UInt8"), "((b0 &&& (~~~(128 : UInt8))).toNat)", false, "Nat"},
+		{"protocol", "", "unmarshalStringLength", "first", 0, "mdLen15First", "Nat", ps("b0", "UInt8"), r("data[0]", "b0", "UInt8"), "((b0 &&& (~~~(128 : UInt8))).toNat)", false, "Nat"},
+		{"protocol", "", "unmarshalStringLength", "second", 0, "mdLen15Second", "Nat", ps("b1", "UInt8"), r("data[1]", "b1", "UInt8"), "(b1.toNat)", false, "Nat"},
+		{"protocol", "", "unmarshalStringLength", "l", 1, "mdLen15", "Nat", ps("first", "Nat", "second", "Nat"), r("first", "first", "Nat", "second", "second", "Nat"), "((first * 256) + second)", false, "Nat"},
 	}
 	for _, v := range []string{"v1", "v2"} {
 		hdrRen := r("h.Type", "type", "UInt8", "h.Verify", "verify", "UInt8", "h.Gzip", "gzip", "UInt8", "h.Reserve", "reserve", "UInt8")
 		as = append(as, anchor{v, "Header", "Pack", "b", 0, v + "PackB0", "UInt8", ps("type", "UInt8", "verify", "UInt8", "gzip", "UInt8", "reserve", "UInt8"), hdrRen,
-			"((((type &&& (15 : UInt8)) ||| ((verify &&& (1 : UInt8)) <<< (4 : UInt8))) ||| ((gzip &&& (1 : UInt8)) <<< (5 : UInt8))) ||| ((reserve &&& (3 : UInt8)) <<< (6 : UInt8)))", false})
+			"((((type &&& (15 : UInt8)) ||| ((verify &&& (1 : UInt8)) <<< (4 : UInt8))) ||| ((gzip &&& (1 : UInt8)) <<< (5 : UInt8))) ||| ((reserve &&& (3 : UInt8)) <<< (6 : UInt8)))", false, ""})
 		bl := r("h.BodyLength", "bl", "UInt32")
 		as = append(as,
-			anchor{v, "Header", "Pack", "data[idx]", -1, v + "PackLen0", "UInt8", ps("bl", "UInt32"), bl, "((bl >>> (16 : UInt32)).toUInt8)", false},
-			anchor{v, "Header", "Pack", "data[idx+1]", 0, v + "PackLen1", "UInt8", ps("bl", "UInt32"), bl, "((bl >>> (8 : UInt32)).toUInt8)", false},
-			anchor{v, "Header", "Pack", "data[idx+2]", 0, v + "PackLen2", "UInt8", ps("bl", "UInt32"), bl, "(bl.toUInt8)", false},
-			anchor{v, "", "headerFromMetadata", "h.CmdCode", 0, v + "CmdByte", "UInt8", ps("cmd", "UInt32"), r("md.CmdCode", "cmd", "UInt32"), "((cmd &&& (255 : UInt32)).toUInt8)", false},
+			anchor{v, "Header", "Pack", "data[idx]", -1, v + "PackLen0", "UInt8", ps("bl", "UInt32"), bl, "((bl >>> (16 : UInt32)).toUInt8)", false, ""},
+			anchor{v, "Header", "Pack", "data[idx+1]", 0, v + "PackLen1", "UInt8", ps("bl", "UInt32"), bl, "((bl >>> (8 : UInt32)).toUInt8)", false, ""},
+			anchor{v, "Header", "Pack", "data[idx+2]", 0, v + "PackLen2", "UInt8", ps("bl", "UInt32"), bl, "(bl.toUInt8)", false, ""},
+			anchor{v, "", "headerFromMetadata", "h.CmdCode", 0, v + "CmdByte", "UInt8", ps("cmd", "UInt32"), r("md.CmdCode", "cmd", "UInt32"), "((cmd &&& (255 : UInt32)).toUInt8)", false, ""},
 		)
 		for _, f := range [][2]string{{"UnpackBytes", "Ub"}, {"Unpack", "Us"}} {
 			b := r("b", "b", "UInt8")
 			as = append(as,
-				anchor{v, "Header", f[0], "h.Type", 0, v + f[1] + "Type", "UInt8", ps("b", "UInt8"), b, "((15 : UInt8) &&& b)", false},
-				anchor{v, "Header", f[0], "h.Verify", 0, v + f[1] + "Verify", "UInt8", ps("b", "UInt8"), b, "((b >>> (4 : UInt8)) &&& (1 : UInt8))", false},
-				anchor{v, "Header", f[0], "h.Gzip", 0, v + f[1] + "Gzip", "UInt8", ps("b", "UInt8"), b, "((b >>> (5 : UInt8)) &&& (1 : UInt8))", false},
-				anchor{v, "Header", f[0], "h.Reserve", 0, v + f[1] + "Reserve", "UInt8", ps("b", "UInt8"), b, "((b >>> (6 : UInt8)) &&& (3 : UInt8))", false},
+				anchor{v, "Header", f[0], "h.Type", 0, v + f[1] + "Type", "UInt8", ps("b", "UInt8"), b, "((15 : UInt8) &&& b)", false, ""},
+				anchor{v, "Header", f[0], "h.Verify", 0, v + f[1] + "Verify", "UInt8", ps("b", "UInt8"), b, "((b >>> (4 : UInt8)) &&& (1 : UInt8))", false, ""},
+				anchor{v, "Header", f[0], "h.Gzip", 0, v + f[1] + "Gzip", "UInt8", ps("b", "UInt8"), b, "((b >>> (5 : UInt8)) &&& (1 : UInt8))", false, ""},
+				anchor{v, "Header", f[0], "h.Reserve", 0, v + f[1] + "Reserve", "UInt8", ps("b", "UInt8"), b, "((b >>> (6 : UInt8)) &&& (3 : UInt8))", false, ""},
 				anchor{v, "Header", f[0], "h.BodyLength", 0, v + f[1] + "BodyLen", "UInt32", ps("fb", "UInt8", "sb", "UInt8", "tb", "UInt8"),
 					r("fb", "fb", "UInt8", "sb", "sb", "UInt8", "tb", "tb", "UInt8"),
-					"(((fb.toUInt32 <<< (16 : UInt32)) ||| (sb.toUInt32 <<< (8 : UInt32))) ||| tb.toUInt32)", false},
+					"(((fb.toUInt32 <<< (16 : UInt32)) ||| (sb.toUInt32 <<< (8 : UInt32))) ||| tb.toUInt32)", false, ""},
 			)
 		}
 		// gzip condition in Pack: first if of the function
 		pv := map[string]string{"v1": "protocolV1", "v2": "protocolV2"}[v]
 		as = append(as, anchor{v, pv, "Pack", "", 0, v + "GzipCond", "Bool", ps("thr", "Int", "bl", "Int"),
-			r("o.MinGzipSize", "thr", "Int", "bl", "bl", "Int"), "((thr != (0 : Int)) && (decide (bl ≥ thr)))", true})
+			r("o.MinGzipSize", "thr", "Int", "bl", "bl", "Int"), "((thr != (0 : Int)) && (decide (bl ≥ thr)))", true, ""})
 	}
 	return as
 }
@@ -640,7 +658,7 @@ func main() {
 		}
 		body, src := "", ""
 		if e != nil {
-			t := &tx{pk: pk, ren: a.ren}
+			t := &tx{pk: pk, ren: a.ren, intTy: a.intTy}
 			s, ty, ok := t.lean(e, a.ty)
 			if ok && ty != a.ty {
 				s, ok = conv(s, ty, a.ty)
